@@ -93,8 +93,8 @@ class Run:
         bad_eps = {}
         for (e, s, op, why, extra) in v["mismatches"]:
             bad_eps.setdefault(e, (s, op, why, extra))
-        if trace_spec not in self.selftested and not bad_eps:
-            self._binding_selftest(trace_spec, tp, env, cfg)
+        if trace_spec not in self.selftested and len(bad_eps) < len(episodes):
+            self._binding_selftest(trace_spec, tp, env, cfg, episodes, set(bad_eps))
         # fetch the failing events
         evs = {}
         if bad_eps:
@@ -143,37 +143,52 @@ class Run:
         except OSError:
             pass
 
-    def _binding_selftest(self, trace_spec, tp, env, cfg, want=40):
-        """Binding / vacuity control (DESIGN 7): in a copy of an accepted trace the outcome of one call per
-        episode (up to `want` episodes) is replaced by "abort" -- admissible nowhere -- and TLC must reject
-        exactly those episodes. A trace specification that does not look at the events fails here (tool error)."""
+    def _binding_selftest(self, trace_spec, tp, env, cfg, episodes, already_bad=frozenset(), want=40):
+        """Binding / vacuity control (DESIGN 7): in a copy of an accepted trace one call per episode (up to `want`
+        episodes) is replaced by the event the runner synthesises when the executor dies in that call (script
+        fields only, out = "abort" -- admissible nowhere), the rest of the episode is dropped as after a real
+        death, and TLC must reject exactly those episodes. A trace specification that does not look at the
+        events, or that cannot digest an abort event, fails here (tool error)."""
         lines = open(tp).read().splitlines()
-        out, cur, changed, pending = [], None, set(), None
-        # choose, per episode, the last event that is not the BEGIN line
-        last_of = {}
+        per_ep = {}
         for k, ln in enumerate(lines):
-            if '"op":"BEGIN"' in ln:
-                continue
             try:
-                e = json.loads(ln)["ep"]
+                d = json.loads(ln)
             except Exception:
                 continue
-            last_of[e] = k
-        picks = dict(list(sorted(last_of.items()))[:want])
-        for e, k in picks.items():
-            d = json.loads(lines[k])
-            d["out"] = "abort"
-            lines[k] = json.dumps(d, separators=(",", ":"))
+            per_ep.setdefault(d["ep"], []).append((k, d))
+        picks = {}
+        drop = set()
+        rnd = 0
+        for e in sorted(per_ep):
+            evs = per_ep[e]
+            if len(picks) >= want or len(evs) < 2 or e in already_bad:
+                continue
+            # alternate between the first, a middle and the last call of the episode
+            j = [1, len(evs) // 2 or 1, len(evs) - 1][rnd % 3]
+            rnd += 1
+            k, d = evs[j]
+            ops = episodes[e].get("ops", [])
+            if d["seq"] - 1 >= len(ops) or d["seq"] < 1:
+                continue
+            ev = {"ep": e, "seq": d["seq"]}
+            ev.update(core._clamp(dict(ops[d["seq"] - 1])))
+            ev.update({"out": "abort", "sig": 6})
+            lines[k] = json.dumps(ev, separators=(",", ":"))
+            for (k2, _) in evs[j + 1:]:
+                drop.add(k2)
+            picks[e] = k
         cp = Path(str(tp) + ".selftest")
-        cp.write_text("\n".join(lines) + "\n")
+        cp.write_text("\n".join(ln for k, ln in enumerate(lines) if k not in drop) + "\n")
         v = core.validate_trace(trace_spec, cp, shards=2, env=env, cfg=cfg)
         rejected = {m[0] for m in v["mismatches"]}
         cp.unlink(missing_ok=True)
         self.selftested[trace_spec] = {"corrupted": len(picks), "rejected": len(rejected & set(picks))}
-        if set(picks) - rejected:
-            raise ToolError("binding self-test: %s accepted a trace in which call outcomes were replaced by abort "
-                            "(episodes %s)" % (trace_spec, sorted(set(picks) - rejected)[:5]))
-        log("[selftest] %s: %d corrupted episodes, all rejected" % (trace_spec, len(picks)))
+        if set(picks) - rejected or (rejected - set(picks)) - set(already_bad):
+            raise ToolError("binding self-test: %s did not reject exactly the episodes whose call was replaced by an "
+                            "abort event (missed %s, extra %s)" % (trace_spec, sorted(set(picks) - rejected)[:5],
+                                                                   sorted(rejected - set(picks))[:5]))
+        log("[selftest] %s: %d episodes with a synthesised abort event, all rejected" % (trace_spec, len(picks)))
 
     # ------------------------------------------------------------- wrap-up
     def finish(self, level_assumptions, rule, exhaustive=False):
